@@ -166,6 +166,22 @@ def run(repo: Repo, rep: Report, tier: str) -> None:
             if why:
                 n_tot += 1
                 rep.fail("handler-total", fq, enclosing(x, (ast.stmt,)) or x, f"inside the except body the user's handler object {why}: an unhashable callable (a dataclass instance with __call__, a callable with a raising __eq__) makes trigger() itself raise, so the notification handler's failure escapes into the protocol machinery", mod=ev, node=x)
+    # the exception object itself was raised by user code: its __str__ / __repr__ / __bool__ / attributes are user
+    # code too. Handing it to LOGGER.<level>(exc) is safe (logging formats the record inside Handler.emit, which
+    # contains formatting errors); evaluating it here - f-string, str(), a formatting helper, a truth test - is not
+    if h.name:
+        for s in h.body:
+            for x in ast.walk(s):
+                if not (isinstance(x, ast.Name) and x.id == h.name and isinstance(x.ctx, ast.Load)):
+                    continue
+                n_tot += 1
+                par = parent(x)
+                lazy_log = isinstance(par, ast.Call) and x in par.args and isinstance(par.func, ast.Attribute) and norm(par.func.value).lower().endswith("logger") and par.func.attr in ("exception", "error", "warning", "info", "debug", "critical")
+                kw_exc_info = isinstance(par, ast.keyword) and par.arg == "exc_info"
+                reraised = isinstance(par, ast.Raise)
+                if lazy_log or kw_exc_info or reraised:
+                    continue
+                rep.fail("handler-total", fq, enclosing(x, (ast.stmt,)) or x, f"the exception raised by the user's handler is evaluated inside the except body (`{norm(par)[:60]}`): str() / repr() / formatting / truth-testing it runs the user's __str__ / __repr__ / __bool__, and if that raises the failure of a notification handler leaves trigger() after all (only LOGGER.<level>({h.name}) defers the formatting to logging, which contains such errors)", mod=ev, node=x)
     rep.ok("handler-total", f"{fq} :: except body scanned", f"{n_tot} uses of user objects")
 
     # ---- abort restored -----------------------------------------------------------------------
@@ -364,3 +380,71 @@ def run(repo: Repo, rep: Report, tier: str) -> None:
             rep.check(prot, "generator-advance", fqs, enclosing(x, (ast.stmt,)) or x, f"the generator returned by the {ename} handler is used ({norm(p)[:60]}) outside try/attempt and not through _wrap_handler: an exception raised inside the user's generator escapes the SCP", mod=m, node=x)
     rep.floor("direct generator advances", n_gen, 3)
     rep.extra["exhaustive"] = False
+    check_exc_truth(repo, rep)
+
+def check_exc_truth(repo: Repo, rep: Report) -> None:
+    """_wrap_handler reports what a user's generator raised as the second element of what it yields, and
+    its consumers branch on it. As long as that element is sys.exc_info() (a 3-tuple: always true) a
+    truth test is harmless; once it is the exception *instance*, `if exc:` runs the user exception's
+    __bool__ / __len__ - a falsy (or raising) exception takes the 'no exception' branch or raises out
+    of the service class, and the handler's failure escapes into the protocol machinery. An instance
+    must be tested with `is not None`."""
+    rep.rule("exc-truth", "what _wrap_handler yields for a raised exception is never truth-tested unless it is the sys.exc_info() tuple")
+    sc = repo.mod("service_class")
+    wh = repo.func("service_class", "ServiceClass._wrap_handler")
+    kinds = set()
+    for y in walk_no_nested(wh):
+        if isinstance(y, ast.Yield) and enclosing(y, (ast.ExceptHandler,)) is not None and isinstance(y.value, ast.Tuple) and len(y.value.elts) == 2:
+            v = y.value.elts[1]
+            h = enclosing(y, (ast.ExceptHandler,))
+            if isinstance(v, ast.Call) and dotted(v.func) == "sys.exc_info":
+                kinds.add("exc_info")
+            elif isinstance(v, ast.Name) and h.name and v.id == h.name:
+                kinds.add("instance")
+            elif isinstance(v, ast.Name):
+                b_ = [s_ for s_ in walk_no_nested(wh) if isinstance(s_, ast.Assign) and norm(s_.targets[0]) == v.id]
+                if b_ and all(isinstance(s_.value, ast.Call) and dotted(s_.value.func) == "sys.exc_info" for s_ in b_):
+                    kinds.add("exc_info")
+                else:
+                    kinds.add("other")
+            else:
+                kinds.add("other")
+    if not kinds:
+        rep.defer("service_class.ServiceClass._wrap_handler: no yield in an except handler found")
+        return
+    n = 0
+    for fn in [f for f in ast.walk(sc.tree) if isinstance(f, ast.FunctionDef)]:
+        for lp in walk_no_nested(fn):
+            if not isinstance(lp, ast.For):
+                continue
+            it, tg = lp.iter, lp.target
+            if isinstance(it, ast.Call) and norm(it.func) == "enumerate" and it.args and isinstance(tg, ast.Tuple) and len(tg.elts) == 2:
+                it, tg = it.args[0], tg.elts[1]
+            if not (isinstance(it, ast.Call) and norm(it.func) == "self._wrap_handler" and isinstance(tg, ast.Tuple) and len(tg.elts) == 2 and isinstance(tg.elts[1], ast.Name)):
+                continue
+            ev_name = tg.elts[1].id
+            fq = f"service_class.{qualname(fn)}"
+            for x in ast.walk(lp):
+                tests = []
+                if isinstance(x, (ast.If, ast.While, ast.IfExp, ast.Assert)):
+                    tests = [x.test]
+                for t in tests:
+                    atoms = []
+                    stack = [t]
+                    while stack:
+                        a = stack.pop()
+                        if isinstance(a, ast.BoolOp):
+                            stack.extend(a.values)
+                        elif isinstance(a, ast.UnaryOp) and isinstance(a.op, ast.Not):
+                            stack.append(a.operand)
+                        else:
+                            atoms.append(a)
+                    for a in atoms:
+                        if isinstance(a, ast.Compare) and len(a.ops) == 1 and isinstance(a.ops[0], (ast.Is, ast.IsNot)) and norm(a.left) == ev_name and norm(a.comparators[0]) == "None":
+                            n += 1
+                            rep.ok("exc-truth", f"{fq} :: `{norm(a)}`", "identity test: runs no user code")
+                        if isinstance(a, ast.Name) and a.id == ev_name:
+                            n += 1
+                            ok = kinds == {"exc_info"}
+                            rep.check(ok, "exc-truth", fq, x if isinstance(x, ast.stmt) else enclosing(x, (ast.stmt,)), f"`{ev_name}` is truth-tested, but _wrap_handler yields {sorted(kinds)} for a raised exception: on an exception instance this runs the user's __bool__ / __len__ - a falsy exception is taken for 'no exception' (the loop then unpacks None and the TypeError aborts the association instead of the documented failure response)", mod=sc, node=a)
+    rep.floor("truth tests on _wrap_handler's exception slot", n, 3)
